@@ -12,6 +12,7 @@ IMPORTS = "From Verif Require Import Values OutputAsync."
 STOP_ID = 999
 LATE_ID = 998
 AFTER_ID = 997
+REPUT_ID = 996
 
 
 class C12(common.Spec):
@@ -71,6 +72,16 @@ class C12(common.Spec):
                             log.append(['out', loop.vt_us, data['value']])
                     else:
                         log.append(['result', loop.vt_us, etype, data['put'].get('value')])
+                        if etype == 'cancel' and case.get('reput') and not state['reput'] and not state['stopped']:
+                            # the recipient of a cancellation report answers with a new event at once
+                            # (from inside the block's control task)
+                            state['reput'] = True
+                            log.append(['put', loop.vt_us, REPUT_ID])
+                            try:
+                                out.event('put', value=REPUT_ID)
+                            except Exception as err:       # noqa
+                                obs['harness'] = 're-put: ' + repr(err)
+            state = dict(reput=False, stopped=False)
             dest = Dest('dest')
             kw = {}
             if case['stop_data']:
@@ -84,6 +95,7 @@ class C12(common.Spec):
             orig_stop = out.stop
 
             def stop_wrapper():
+                state['stopped'] = True
                 if case.get('put_at_stop'):
                     # an event sent by another block's clean-up reaches the block in the same loop
                     # pass as its own stop(): it is still accepted and must be completed
@@ -198,8 +210,9 @@ def gen_case(rng):
     script[str(STOP_ID)] = [rng.choice([50_000, 100_000]), 'ok']
     script[str(LATE_ID)] = [rng.choice([50_000, 100_000]), 'ok']
     script[str(AFTER_ID)] = [50_000, 'ok']
+    script[str(REPUT_ID)] = [50_000, 'ok']
     stop = rng.choice([times[-1], times[-1] + 50_000, times[-1] + 100_000, times[-1] + 1_000_000])
-    return dict(mode=mode, abbrev=len(puts) % 3 == 0, guard_us=guard, puts=puts, script=script, stop_us=stop,
+    return dict(mode=mode, abbrev=len(puts) % 3 == 0, reput=(mode == 'cancel' and len(puts) >= 2 and puts[0][0] % 100_000 == 0), guard_us=guard, puts=puts, script=script, stop_us=stop,
                 stop_data=rng.random() < 0.5, put_at_stop=rng.random() < 0.25,
                 put_after_stop=rng.random() < 0.25)
 
